@@ -64,6 +64,23 @@ int main(int argc, char** argv) {
         if (it != S2.dht_.shard_table_.end() && duration<double>(it->second.expires_at - steady_clock::now()).count() > 125.0) {
             std::printf("REPRODUCED: the share record published with a 120 s TTL keeps an older deadline %.0f s away\n", duration<double>(it->second.expires_at - steady_clock::now()).count()); return 1; }
     }
+    if (scenario == "all" || scenario == "contact") {
+        // an announcement claims a provider TTL of one hour for a manifest with 60 s left: the recorded contact must not outlive the manifest
+        Config cc = cr; cc.announce_pow_difficulty = 0;
+        Node R6(idr, cc);
+        auto m = manifest; m.expires_at = system_clock::now() + seconds(60);
+        protocol::AnnouncePayload ap{}; ap.chunk_id = chunk; ap.peer_id = ids; ap.endpoint = "127.0.0.1:45999"; ap.ttl = seconds(3600);
+        ap.manifest_uri = protocol::encode_manifest(m);
+        const auto s0 = steady_clock::now();
+        R6.handle_announce(ap, ids, protocol::kCurrentMessageVersion);
+        const auto key = chunk_id_to_string(chunk);
+        const auto it = R6.dht_.table_.find(key);
+        if (it == R6.dht_.table_.end() || it->second.holders.empty()) { std::printf("the announcement was not admitted (no contact recorded)\n"); return 2; }
+        for (const auto& h : it->second.holders) {
+            const double life = duration<double>(h.expires_at - s0).count();
+            if (life > 62.0) { std::printf("REPRODUCED: the provider contact learned from a manifest with 60 s left lives %.0f s\n", life); return 1; }
+        }
+    }
     if (scenario == "all" || scenario == "ttl") {
         struct { long expires_in; bool expect_ok; } cases[] = {{50, true}, {3000, true}, {864000, true}, {5, false}, {29, false}, {-10, false}, {0, false}};
         for (const auto& c : cases) {
